@@ -95,3 +95,9 @@ Proof. repeat split; reflexivity. Qed.
 From SymfcG Require Import ShapesApi SkelApi.
 Theorem c10_facade_in_force : ShapesApi_as_recorded = true /\ SkelApi_as_recorded = true.
 Proof. repeat split; reflexivity. Qed.
+
+(** The rest of the code path of this property's statement (independence of the description is a statement about the whole computation: every stage of the basis construction and the solvers) is the recorded source: whole-function / skeleton match,
+    regenerated on every run. *)
+From SymfcG Require Import ShapesSolvers SkelSolvers ShapesCombos ShapesPerm ShapesCoset ShapesSumRule ShapesBasis ShapesO1 ShapesAuxO1 ShapesAuxEig ShapesAuxBatch ShapesAuxCut SkelBasis SkelEig SkelMat SkelPerm SkelIdx.
+Theorem c10_code_path_in_force : ShapesSolvers_as_recorded = true /\ SkelSolvers_as_recorded = true /\ ShapesCombos_as_recorded = true /\ ShapesPerm_as_recorded = true /\ ShapesCoset_as_recorded = true /\ ShapesSumRule_as_recorded = true /\ ShapesBasis_as_recorded = true /\ ShapesO1_as_recorded = true /\ ShapesAuxO1_as_recorded = true /\ ShapesAuxEig_as_recorded = true /\ ShapesAuxBatch_as_recorded = true /\ ShapesAuxCut_as_recorded = true /\ SkelBasis_as_recorded = true /\ SkelEig_as_recorded = true /\ SkelMat_as_recorded = true /\ SkelPerm_as_recorded = true /\ SkelIdx_as_recorded = true.
+Proof. repeat split; reflexivity. Qed.
